@@ -1,5 +1,6 @@
 """Generator for @overload signatures when operations have multiple content types."""
 
+import json
 import logging
 from typing import Any
 
@@ -131,7 +132,8 @@ class OverloadMethodGenerator:
         param_parts.append(f"{param_info['name']}: {param_info['type']}")
 
         # Add content_type parameter with Literal type
-        param_parts.append(f'content_type: Literal["{content_type}"] = "{content_type}"')
+        content_type_literal = json.dumps(content_type, ensure_ascii=False)  # media type as a Python literal
+        param_parts.append(f"content_type: Literal[{content_type_literal}] = {content_type_literal}")
 
         # Get return type from response strategy
         return_type = response_strategy.return_type
